@@ -1,1 +1,131 @@
-/- property theorems for C10 (filled in below) -/
+/-
+C10 — automaton operations transform the accepted language as documented.
+Property theorems about the model `GT.FSA` (lean/GT/Model/FSA.lean); helper lemmas live in
+`GT/Lemmas/FSA*.lean`.  Each theorem family is followed by an `example` on a concrete automaton.
+-/
+import GT.Lemmas.FSALang
+
+namespace GT.C10
+open GT GT.FSA
+variable {V L : Type} [DecidableEq V] [DecidableEq L]
+
+/-! ## the acceptance test, the walk, the prefix queries and the enumerators agree -/
+
+/-- `follow_word` is a monoid action: walking `u ++ w` is walking `u`, then `w` -/
+theorem follow_append (s : FSA V L) (v : V) (u w : List L) :
+    s.follow v (u ++ w) = (s.follow v u).bind (fun v' => s.follow v' w) :=
+  FSA.follow_append s v u w
+
+/-- `accepts(word, start_vertex)` is true exactly when `follow_word` succeeds from the given start
+vertex, or (for `start_vertex=None`) from one of the start vertices -/
+theorem accepts_iff_follow (s : FSA V L) (w : List L) (start : Option V) :
+    s.accepts w start = true ↔
+      ∃ v, v ∈ (match start with | some v => [v] | none => s.starts) ∧ ∃ q, s.follow v w = some q := by
+  unfold FSA.accepts
+  rw [List.any_eq_true]
+  constructor
+  · rintro ⟨v, hv, h⟩
+    exact ⟨v, hv, Option.isSome_iff_exists.1 h⟩
+  · rintro ⟨v, hv, q, h⟩
+    exact ⟨v, hv, by simp [h]⟩
+
+/-- `initial_accepted_subword(word)` is the longest prefix of `word` accepted from the first start
+vertex (and raises `IndexError` exactly when there is no start vertex) -/
+theorem initialAccepted_spec (s : FSA V L) (w : List L) :
+    (s.starts = [] ∧ s.initialAccepted w = .error .indexError) ∨
+    ∃ v0 rest p, s.starts = v0 :: rest ∧ s.initialAccepted w = .ok p ∧ p <+: w ∧
+      (s.follow v0 p).isSome ∧ ∀ p', p' <+: w → (s.follow v0 p').isSome → p'.length ≤ p.length := by
+  unfold FSA.initialAccepted
+  cases hs : s.starts with
+  | nil => exact Or.inl ⟨rfl, rfl⟩
+  | cons v0 rest =>
+    exact Or.inr ⟨v0, rest, _, rfl, rfl, acceptedPrefixFrom_prefix s v0 w,
+      acceptedPrefixFrom_accepted s v0 w, fun p' hp h => acceptedPrefixFrom_longest s v0 w p' hp h⟩
+
+/-- the longest-accepted-prefix query agrees with the acceptance test: the answer is the whole
+word exactly when the word is accepted from the first start vertex -/
+theorem initialAccepted_eq_self_iff (s : FSA V L) (v0 : V) (rest : List V) (hs : s.starts = v0 :: rest)
+    (w : List L) : s.initialAccepted w = .ok w ↔ s.accepts w (some v0) = true := by
+  unfold FSA.initialAccepted FSA.accepts
+  simp only [hs, Except.ok.injEq, List.any_cons, List.any_nil, Bool.or_false]
+  constructor
+  · intro h
+    have := acceptedPrefixFrom_accepted s v0 w
+    rwa [h] at this
+  · exact acceptedPrefixFrom_eq_self
+
+/-- `initial_rejected_subword(word)` as coded: the word itself when it is accepted, otherwise the
+shortest rejected prefix (= longest accepted prefix plus the next letter) -/
+theorem initialRejected_spec (s : FSA V L) (v0 : V) (rest : List V) (hs : s.starts = v0 :: rest)
+    (w : List L) :
+    ∃ r, s.initialRejected w = .ok r ∧
+      ((s.follow v0 w).isSome → r = w) ∧
+      (s.follow v0 w = none → r <+: w ∧ s.follow v0 r = none ∧
+        ∃ l, r = s.acceptedPrefixFrom v0 w ++ [l]) := by
+  refine ⟨s.rejectedPrefixFrom v0 w, by simp [FSA.initialRejected, hs], ?_, ?_⟩
+  · exact rejectedPrefixFrom_of_accepted
+  · intro h
+    obtain ⟨l, e, hp, hr⟩ := rejectedPrefixFrom_of_rejected h
+    exact ⟨hp, hr, l, e⟩
+
+/-- `enumerate_fixed_length_paths(n, start, with_states=True)` yields exactly the pairs
+`(w, q)` with `|w| = n` and `follow_word(w, start) = q` -/
+theorem mem_enumFixed {s : FSA V L} (hd : s.RowsNodup) {start : V} {n : Nat}
+    {xs : List (List L × V)} (h : s.enumFixed start n = .ok xs) (w : List L) (q : V) :
+    (w, q) ∈ xs ↔ w.length = n ∧ s.follow start w = some q :=
+  FSA.mem_enumFixed hd h w q
+
+/-- … and lists each accepted word exactly once -/
+theorem enumFixed_nodup {s : FSA V L} (hd : s.RowsNodup) {start : V} {n : Nat}
+    {xs : List (List L × V)} (h : s.enumFixed start n = .ok xs) : (xs.map Prod.fst).Nodup :=
+  words_nodup_enumFixed hd h
+
+/-- the enumerator does not raise when every target of the label view is a vertex -/
+theorem enumFixed_ok {s : FSA V L} (hd : s.RowsNodup) (hc : s.Closed) {start : V}
+    (hs : ∃ row, s.graph.get? start = some row) (n : Nat) : ∃ xs, s.enumFixed start n = .ok xs :=
+  FSA.enumFixed_ok hd hc hs n
+
+/-- `enumerate_words(n, start, with_states=True)` yields exactly the pairs `(w, q)` with
+`|w| ≤ n` and `follow_word(w, start) = q` -/
+theorem mem_enumWords {s : FSA V L} (hd : s.RowsNodup) {start : V} {n : Nat}
+    {xs : List (List L × V)} (h : s.enumUpTo start n = .ok xs) (w : List L) (q : V) :
+    (w, q) ∈ xs ↔ w.length ≤ n ∧ s.follow start w = some q :=
+  mem_enumUpTo hd h w q
+
+/-- … each accepted word exactly once -/
+theorem enumWords_nodup {s : FSA V L} (hd : s.RowsNodup) {start : V} {n : Nat}
+    {xs : List (List L × V)} (h : s.enumUpTo start n = .ok xs) : (xs.map Prod.fst).Nodup :=
+  words_nodup_enumUpTo hd h
+
+/-- the enumerators and the acceptance test agree: a word of length `≤ n` is enumerated iff it is
+accepted from `start` -/
+theorem enumWords_iff_accepts {s : FSA V L} (hd : s.RowsNodup) {start : V} {n : Nat}
+    {xs : List (List L × V)} (h : s.enumUpTo start n = .ok xs) (w : List L) (hw : w.length ≤ n) :
+    w ∈ xs.map Prod.fst ↔ s.accepts w (some start) = true := by
+  rw [accepts_iff_follow]
+  simp only [List.mem_map, Prod.exists, exists_and_right, exists_eq_right, List.mem_singleton,
+    exists_eq_left]
+  constructor
+  · rintro ⟨q, hq⟩; exact ⟨q, ((mem_enumUpTo hd h w q).1 hq).2⟩
+  · rintro ⟨q, hq⟩; exact ⟨q, (mem_enumUpTo hd h w q).2 ⟨hw, hq⟩⟩
+
+section Example
+/-- the word acceptor of the free group on one generator: `fsa.free_automaton("a")` -/
+def exFree : FSA String String := FSA.free (fun g => if g = "a" then "A" else "a") "" ["a"]
+
+example : exFree.RowsNodup ∧ exFree.accepts ["a", "a"] = true ∧ exFree.accepts ["a", "A"] = false ∧
+    (exFree.initialAccepted ["a", "A", "a"]).toOption = some ["a"] ∧
+    (exFree.initialRejected ["a", "A", "a"]).toOption = some ["a", "A"] ∧
+    (exFree.enumUpTo "" 2).toOption.map (·.map Prod.fst) =
+      some [[], ["a"], ["A"], ["a", "a"], ["A", "A"]] := by
+  refine ⟨?_, by decide, by decide, by decide, by decide, by decide⟩
+  intro v row h
+  have : row ∈ [[("a", "a"), ("A", "A")], [("a", "a")], [("A", "A")]] := by
+    have hm := Dict.mem_of_get? h
+    revert hm; unfold exFree; simp [FSA.free, FSA.fromGraphDict, FSA.hiddenVertices, Dict.set, Dict.keys]
+    intro hm; rcases hm with ⟨_, rfl⟩ | ⟨_, rfl⟩ | ⟨_, rfl⟩ <;> simp
+  simp only [List.mem_cons, List.not_mem_nil, or_false] at this
+  rcases this with rfl | rfl | rfl <;> decide
+end Example
+
+end GT.C10
